@@ -589,10 +589,17 @@ def isoptionaltype(obj: type[_OT]) -> compat.TypeIs[type[tp.Optional[_OT]]]:
     # Compare the form itself, not its name - a user class may well be called `Union`.
     orig = origin(obj)
     nullarg = next((a for a in args if a in (type(None), None)), ...)
+    if nullarg is ... and orig in (tp.Union, types.UnionType):
+        # A member can be optional behind a NewType or an alias (`type MaybeInt = int | None`).
+        nullarg = next((a for a in args if _isnullable(unwrap(a))), ...)
     isoptional = orig is tp.Optional or (
         nullarg is not ... and orig in (tp.Union, types.UnionType, tp.Literal)
     )
     return isoptional
+
+
+def _isnullable(obj: tp.Any) -> bool:
+    return obj is None or obj is type(None) or isoptionaltype(obj)
 
 
 _OT = tp.TypeVar("_OT")
